@@ -18,6 +18,7 @@ package guardiand
 //@     iter-ensures [remember-only-if-sent] unchanged("chan") ==> (forall k in dom(cache) :: old(indom(cache, k)) && cache[k] == old(cache[k]))
 //@     iter-ensures [routing-table-untouched] mapUnchanged(chainObsvReqC)
 //@     iter-ensures [remembered-with-the-time-of-forwarding] forall k in dom(cache) :: !old(indom(cache, k)) ==> tns(cache[k]) >= old(ghostNow())
+//@   at [ok]: assert [key-names-the-exact-transaction] r.chainId == req.ChainId && hexok(r.txHash) && len(unhex(r.txHash)) == len(req.TxHash) && (forall j in 0..len(req.TxHash) :: unhex(r.txHash)[j] == req.TxHash[j])
 //@   at [channel <- req]:
 //@     assert [names-chain] r.chainId == req.ChainId
 //@     assert [routes-to-that-watcher] indom(chainObsvReqC, r.chainId) && channel == chainObsvReqC[r.chainId]
